@@ -122,6 +122,7 @@ def run(tier, seed, mutant=None, only_validate=False):
             for c in (("future", "sync") if tier == "quick" else ("future", "coro", "sync")):
                 cfgs.append({"kind": "partition", "n": n, "timeout": to or None, "mod": mod if mod > 1 else None,
                              "cons": [c], "max_elems": ne})
+        cfgs.append({"kind": "partition", "n": 2, "timeout": 2, "mod": None, "cons": ["future"], "max_elems": ne, "feeder": "plain"})
         # the consumer's awaitable may raise (once per run)
         cfgs.append({"kind": "partition", "n": 2, "timeout": 2, "mod": None, "cons": ["future"], "max_elems": ne, "faults": True})
         cfgs.append({"kind": "partition", "n": 2, "timeout": None, "mod": 2, "cons": ["future"], "max_elems": ne, "faults": True})
